@@ -1,0 +1,67 @@
+//go:build verif
+
+// Contracts for foreign keys (C04): existence of the target, maintenance of the target's back-reference set,
+// restrict / cascade on delete. Comments only.
+package boltz
+
+// symLinked(sym): the store a foreign-key symbol points into; fkB(index, tx, id): the bbolt bucket holding the
+// back-reference set of target id for an fk index in a transaction (a stable name once it exists)
+//@ spec symLinked(sym Int) Int
+//@ spec fkB(index Int, tx Int, id Str) Int
+//@ func (EntitySymbol).GetLinkedType
+//@   pure
+//@   ensures[the-linked-store] result != nil && ref(result) == symLinked(self)
+//@ define fkNew(index, ctx) = symBytes(index.symbol, str(ctx.RowId))
+//@ define fkOld(index, ctx) = str(ctx.AtomStates[index])
+//@ define fkChanged(index, ctx) = ctx.IsCreate || fkOld(index, ctx) != fkNew(index, ctx)
+//@ define fkListed(b, row) = sel(bktHas[b], prepend(TypeString, row)) && sel(bktSub[b], prepend(TypeString, row)) == 0
+
+// ---- fk constraint: the referenced entity must exist ----
+//@ func (*fkConstraint).ProcessBeforeUpdate
+//@   props C04
+//@   nosafety
+//@   modifies *
+//@   ensures[database-untouched] dbSame()
+//@   ensures[remembers-the-old-reference] !old(holderFailed[ctx.ErrHolder]) ==> has(ctx.AtomStates, index) && str(ctx.AtomStates[index]) == old(fkNew(index, ctx))
+//@ func (*fkConstraint).ProcessAfterUpdate
+//@   props C04
+//@   nosafety
+//@   modifies holderFailed[ctx.ErrHolder]
+//@   ensures[fails-exactly-for-a-missing-target-or-a-forbidden-null] holderFailed[ctx.ErrHolder] == (old(holderFailed[ctx.ErrHolder]) || (fkChanged(index, ctx) && ((str_len(fkNew(index, ctx)) > 0 && !entPresent(symLinked(index.symbol), fkNew(index, ctx))) || (str_len(fkNew(index, ctx)) == 0 && !index.nullable))))
+
+// ---- fk index: the target's back-reference set ----
+// getIndexBucket: a missing target is a not-found error and nothing is written (proved); for an existing target the
+// result is the target's back-reference bucket, and no other back-reference bucket changes (assumed summary of
+// GetOrCreatePath below the target's entity bucket)
+//@ func (*fkIndex).getIndexBucket
+//@   props C04
+//@   nosafety
+//@   modifies bktHas, bktVal, bktSub
+//@   ensures[a-bucket-or-an-error] result != nil && result.ErrorHolderImpl != nil
+//@   ensures[missing-target-is-not-found] !entPresent(symStoreOf(index.fkSymbol), str(fkId)) ==> result.Err != nil && dbSame()
+//@   censures[the-target's-back-reference-bucket] entPresent(symStoreOf(index.fkSymbol), str(fkId)) && result.Err == nil ==> result.Bucket != nil && ref(result.Bucket) == fkB(index, tx, str(fkId))
+//@   censures[other-back-reference-sets-kept] forallStr(k, k != str(fkId) ==> bktHas[fkB(index, tx, k)] == old(bktHas[fkB(index, tx, k)]) && bktSub[fkB(index, tx, k)] == old(bktSub[fkB(index, tx, k)]), fkB(index, tx, k))
+//@   censures[existing-entries-kept] forallStr(s, old(sel(bktHas[fkB(index, tx, str(fkId))], prepend(TypeString, s))) == sel(bktHas[fkB(index, tx, str(fkId))], prepend(TypeString, s)) && old(sel(bktSub[fkB(index, tx, str(fkId))], prepend(TypeString, s))) == sel(bktSub[fkB(index, tx, str(fkId))], prepend(TypeString, s)))
+//@   censures[distinct-targets-distinct-buckets] forallStr(k, k != str(fkId) ==> fkB(index, tx, k) != fkB(index, tx, str(fkId)), fkB(index, tx, k))
+//@ func (*fkIndex).ProcessBeforeUpdate
+//@   props C04
+//@   nosafety
+//@   modifies *
+//@   ensures[database-untouched] dbSame()
+//@   ensures[remembers-the-old-reference] !old(holderFailed[ctx.ErrHolder]) ==> has(ctx.AtomStates, index) && str(ctx.AtomStates[index]) == old(fkNew(index, ctx))
+//@ func (*fkIndex).ProcessAfterUpdate
+//@   props C04
+//@   nosafety
+//@   modifies *
+//@   ensures[pending-error-does-nothing] old(holderFailed[ctx.ErrHolder]) ==> dbSame()
+//@   ensures[unchanged-reference-does-nothing] !old(fkChanged(index, ctx)) ==> dbSame() && holderFailed[ctx.ErrHolder] == old(holderFailed[ctx.ErrHolder])
+//@   ensures[missing-new-target-is-an-error] !old(holderFailed[ctx.ErrHolder]) && old(fkChanged(index, ctx)) && str_len(old(fkNew(index, ctx))) > 0 && !entPresent(symStoreOf(index.fkSymbol), old(fkNew(index, ctx))) ==> holderFailed[ctx.ErrHolder]
+//@   ensures[forbidden-null-is-an-error] !old(holderFailed[ctx.ErrHolder]) && old(fkChanged(index, ctx)) && str_len(old(fkNew(index, ctx))) == 0 && !index.nullable ==> holderFailed[ctx.ErrHolder]
+//@   ensures[new-target-lists-the-row] !holderFailed[ctx.ErrHolder] && old(fkChanged(index, ctx)) && str_len(old(fkNew(index, ctx))) > 0 ==> fkListed(fkB(index, ctxTx[ctx.Ctx], old(fkNew(index, ctx))), str(ctx.RowId))
+//@   ensures[old-target-no-longer-lists-the-row] !holderFailed[ctx.ErrHolder] && old(fkChanged(index, ctx)) && str_len(old(fkOld(index, ctx))) > 0 && old(fkOld(index, ctx)) != old(fkNew(index, ctx)) ==> !fkListed(fkB(index, ctxTx[ctx.Ctx], old(fkOld(index, ctx))), str(ctx.RowId))
+//@ func (*fkIndex).ProcessBeforeDelete
+//@   props C04
+//@   nosafety
+//@   modifies *
+//@   ensures[pending-error-does-nothing] old(holderFailed[ctx.ErrHolder]) ==> dbSame()
+//@   ensures[target-no-longer-lists-the-row] !holderFailed[ctx.ErrHolder] && str_len(old(fkNew(index, ctx))) > 0 ==> !fkListed(fkB(index, ctxTx[ctx.Ctx], old(fkNew(index, ctx))), str(ctx.RowId))
